@@ -33,7 +33,7 @@ def budget(tier):
     return {"examples": 160000, "shards": 16}
 
 
-DRIVES = ["start", "start", "start", "rut-beyond", "ruti-end", "ruti-beyond", "rut-clock-first", "steps", "steps"]
+DRIVES = ["start", "start", "start", "rut-beyond", "ruti-end", "ruti-beyond", "rut-clock-first", "steps"]
 
 
 def strategy(tier):
@@ -131,12 +131,21 @@ def run_case(case):
         if case.get("drive") == "steps":
             # every event is carried out by a single step(); the final start() only ends the replication
             from pydsol.core.simulator import RunState
-            guard = len(ref.trace) + 5
+            r2 = RefSim(case)
+            r2.initialize()
+            guard = min(len(ref.trace) + 5, 80)
             while guard > 0 and h.sim.run_state != RunState.ENDED:
                 guard -= 1
+                nxt = r2._first()
+                if nxt is None or nxt[0] > r2.end:
+                    break               # nothing left inside the horizon
+                r2.step()
                 e_ = h.run_piece(["step"])
                 if e_ is not None:
-                    break               # (refused: nothing left to step, or the clock passed the end)
+                    # an event inside the horizon (possibly AT the end time) is pending: the step must be carried out
+                    out.fail("step-refused-with-event-inside-horizon", {"err": repr(e_), "next": enc_ref(nxt[0]),
+                                                                        "end": enc_ref(r2.end)})
+                    break
                 if len(h.model.trace) > len(ref.trace) + 3:
                     break
             case = dict(case, drive="start")
